@@ -141,6 +141,9 @@ func isnew[T any](x []T) bool { return true }
 // isnewobj(p): p points to an object allocated during the call.
 func isnewobj[T any](p *T) bool { return p != nil }
 
+// otherarray(a, b): the slices are backed by different arrays (or a is empty).
+func otherarray(a, b []byte) bool { return true }
+
 // isnewmap(m): the map was made during the call.
 func isnewmap[K comparable, V any](m map[K]V) bool { return m != nil }
 
